@@ -40,6 +40,14 @@ func encodeFunc(w *World, fn *ssa.Function, noPanics bool) (rep *FuncReport) {
 	rep.HasCtr = e.ctr != nil
 	if e.ctr != nil && e.ctr.Trusted {
 		rep.Trusted = true
+		// the body of a trusted function is not verified against its contract, but the determinism sweep
+		// (a dataflow rule, see order.go) still looks at it
+		e.analyseCFG()
+		e.compSort = map[string]string{}
+		e.reset()
+		e.pass = 2
+		e.orderObligations()
+		rep.Obls = e.obls
 		return
 	}
 	e.noPanics = noPanics
